@@ -1,5 +1,5 @@
 (* UptoFacts.v -- proofs about the model of _tokensupto2 (Upto.v) *)
-From CssV Require Import Base Tokenizer Upto.
+From CssV Require Import Base Tokenizer Gen.UptoGen Upto.
 Open Scope Z_scope.
 
 (* ---------------------------------------------------------------- partition *)
@@ -143,6 +143,43 @@ Qed.
 Lemma stops_zero md t : mq md = false -> stops md (0, 0, 0) t = isendtok md t.
 Proof. intros Hmq. unfold stops. rewrite Hmq. simpl. now rewrite orb_false_r. Qed.
 
+(* ---------------------------------------------------------------- tie to the generated tables *)
+(* the flags of the model are exactly the keyword parameters of the current source, in order *)
+Lemma flags_generated : map flag_name all_flags = gen_flags.
+Proof. reflexivity. Qed.
+
+Lemma modes_generated :
+  forallb (fun fl => match assoc_s (flag_name fl) gen_modes with Some _ => true | None => false end) all_flags = true
+  /\ length gen_modes = length all_flags.
+Proof. split; reflexivity. Qed.
+
+(* the hand-written counter updates are the generated bracket chains (characters, the FUNCTION disjunct, which
+   counter, which delta, in source order) behind the generated IDENT guard *)
+Lemma bump_generated c t :
+  bump c t = if gen_ident_guard && is_ident t then c
+             else ladder_apply gen_loop_ladder (val t) (is_function t) c.
+Proof.
+  destruct c as [[br bk] pa]. unfold bump. destruct (is_ident t); [reflexivity|].
+  unfold gen_ident_guard, gen_loop_ladder. cbn [andb ladder_apply]. cbv zeta.
+  destruct (eqs (val t) (s "{")); [reflexivity|].
+  destruct (eqs (val t) (s "}")); [reflexivity|].
+  destruct (eqs (val t) (s "[")); [reflexivity|].
+  destruct (eqs (val t) (s "]")); [reflexivity|].
+  destruct (eqs (val t) (s "(")); destruct (is_function t); try reflexivity.
+  all: destruct (eqs (val t) (s ")")); reflexivity.
+Qed.
+
+Lemma start_count_generated c t :
+  start_count c t = if gen_ident_guard && is_ident t then c
+                    else ladder_apply gen_start_ladder (val t) (is_function t) c.
+Proof.
+  destruct c as [[br bk] pa]. unfold start_count. destruct (is_ident t); [reflexivity|].
+  unfold gen_ident_guard, gen_start_ladder. cbn [andb ladder_apply]. cbv zeta.
+  destruct (eqs (val t) (s "[")); [reflexivity|].
+  destruct (eqs (val t) (s "{")); [reflexivity|].
+  destruct (eqs (val t) (s "(")); destruct (is_function t); reflexivity.
+Qed.
+
 (* ---------------------------------------------------------------- Balanced *)
 Lemma Balanced_app x y : Balanced x -> Balanced y -> Balanced (x ++ y).
 Proof.
@@ -281,6 +318,83 @@ Proof.
   cbn [app upto_loop] in Hl. rewrite He, Hs in Hl.
   unfold upto_md. rewrite Hc0, (start_count_class _ _ Hcl).
   destruct (upto_loop md (bump (0, 0, 0) t) (r ++ rest)) as [run rest']. inversion Hl; subst. reflexivity.
+Qed.
+
+(* ---------------------------------------------------------------- every mode: inside ( ) or [ ] nothing stops *)
+(* both stop conditions need bracket = parant = 0; so inside a ( ) / [ ] group -- whatever the brace counter, whatever
+   the mode, mediaqueryendonly included -- the loop cannot stop                                                   *)
+Definition inpar (c : counters) : Prop := let '(_, bk, pa) := c in 0 <= bk /\ 0 <= pa /\ 0 < bk + pa.
+
+Lemma stops_inpar md c t : inpar c -> stops md c t = false.
+Proof.
+  destruct c as [[br bk] pa]. unfold inpar, stops, zero. intros (H1 & H2 & H3).
+  destruct (Z.eqb_spec bk 0); destruct (Z.eqb_spec pa 0); try lia;
+    rewrite ?andb_false_r, ?andb_false_l; simpl; rewrite ?andb_false_r; reflexivity.
+Qed.
+
+Lemma inpar_shift k c : inpar c -> inpar (shift k 1 c).
+Proof.
+  destruct c as [[br bk] pa]. unfold inpar, shift.
+  destruct k as [|[|k]]; intros (H1 & H2 & H3); repeat split; lia.
+Qed.
+
+Lemma balanced_closed_inpar md x :
+  Balanced x -> forall c, inpar c -> closed md c x = true /\ after c x = c.
+Proof.
+  intros Hx. induction Hx as [|t x Ht He Hx IH|o b c' x k Ho Hc Heo Hec Hb IHb Hx IH]; intros c Hp.
+  - split; reflexivity.
+  - rewrite closed_cons, after_cons, (bump_atom _ _ Ht), He, (stops_inpar _ _ _ Hp).
+    destruct (IH _ Hp) as [H1 H2]. rewrite H1, H2. split; reflexivity.
+  - pose proof (inpar_shift k _ Hp) as Hp1.
+    destruct (IHb _ Hp1) as [Hb1 Hb2]. destruct (IH _ Hp) as [Hx1 Hx2].
+    rewrite closed_cons, after_cons, (bump_open _ _ _ Ho), Heo, (stops_inpar _ _ _ Hp1).
+    rewrite closed_app, after_app, Hb1, Hb2.
+    rewrite closed_cons, after_cons, (bump_close _ _ _ Hc), Hec, (stops_inpar _ _ _ Hp), Hx1, Hx2.
+    split; reflexivity.
+Qed.
+
+(* the run in front of the first top-level '{' is closed, for every mode whose bracket and parant counters
+   start at 0 (all but funcendonly and selectorattendonly-after-'[') and every initial brace counter *)
+Lemma prebrace_closed md br0 x :
+  c0 md = (br0, 0, 0) -> PreBrace md x -> closed md (c0 md) x = true /\ after (c0 md) x = c0 md.
+Proof.
+  intros Hc0. induction 1 as [|t x Ht He Hs Hx IH|o b c x k Ho Hc Heo Hec Hb Hsc Hx IH].
+  - split; reflexivity.
+  - rewrite closed_cons, after_cons, (bump_atom _ _ Ht), He, Hs. destruct IH as [H1 H2].
+    rewrite H1, H2. split; reflexivity.
+  - assert (inpar (shift (S k) 1 (c0 md))) as Hp1
+        by (rewrite Hc0; unfold inpar, shift; destruct k; repeat split; lia).
+    destruct (balanced_closed_inpar md b Hb _ Hp1) as [Hb1 Hb2]. destruct IH as [Hx1 Hx2].
+    rewrite closed_cons, after_cons, (bump_open _ _ _ Ho), Heo, (stops_inpar _ _ _ Hp1).
+    rewrite closed_app, after_app, Hb1, Hb2.
+    rewrite closed_cons, after_cons, (bump_close _ _ _ Hc), Hec, Hsc, Hx1, Hx2. split; reflexivity.
+Qed.
+
+(* _tokensupto2(tokenizer, <mode>=True) on  pre e rest  stops exactly at e: the first token on which the stop
+   condition holds at the mode's initial counters -- the '{' of blockstartonly / mediaqueryendonly (brace -1 -> 0),
+   or a STRING at depth 0 in mediaqueryendonly (the armed special case)                                        *)
+Lemma prebrace_upto fl br0 pre e rest :
+  c0 (mode_of fl None) = (br0, 0, 0) -> PreBrace (mode_of fl None) pre ->
+  (is_eof e = true \/ stops (mode_of fl None) (bump (c0 (mode_of fl None)) e) e = true) ->
+  upto fl None (pre ++ e :: rest) = (pre ++ [e], rest).
+Proof.
+  intros Hc0 Hpre He. unfold upto, upto_md.
+  destruct (prebrace_closed _ _ _ Hc0 Hpre) as [H1 H2].
+  apply upto_closed_run_lemma; [exact H1|]. now rewrite H2.
+Qed.
+
+(* ... and the matching block: after the '{' the modes blockendonly / mediaendonly (brace 1) run through any
+   balanced body and stop at its '}'                                                                        *)
+Lemma block_upto fl body c rest :
+  c0 (mode_of fl None) = (1, 0, 0) -> mq (mode_of fl None) = false ->
+  Balanced body -> bclass_of c = BClose 0 -> is_eof c = false -> isendtok (mode_of fl None) c = true ->
+  upto fl None (body ++ c :: rest) = (body ++ [c], rest).
+Proof.
+  intros Hc0 Hmq Hb Hc Hec Hend. unfold upto, upto_md. rewrite Hc0.
+  assert (pos (1, 0, 0)) as Hp by (unfold pos, nonneg; lia).
+  destruct (balanced_closed_nested _ body Hmq Hb _ Hp) as [H1 H2].
+  apply upto_closed_run_lemma; [exact H1|]. right. rewrite H2.
+  change (1, 0, 0) with (shift 0 1 (0, 0, 0)). rewrite (bump_close _ _ _ Hc), (stops_zero _ _ Hmq). exact Hend.
 Qed.
 
 (* ---------------------------------------------------------------- the pinned defect *)
